@@ -212,7 +212,10 @@ impl Stage for Boot {
             }
             let plain = routers.is_empty() && !nodes.is_empty();
             // a contact is responsive if its answer arrives within the 2.5 s the initial round waits
-            let some_answerer = c.contacts.iter().any(|c| matches!(c.kind, Kind::Answer | Kind::AnswerTwice) && c.as_node && c.delay_ms < 2400);
+            // (under a busy event loop the answer waits for the send in progress and for a ping queued
+            // ahead of it before the node processes it: allow three blocks)
+            let slack = 3 * busy.map(|b| b.1 as u64).unwrap_or(0);
+            let some_answerer = c.contacts.iter().any(|c| matches!(c.kind, Kind::Answer | Kind::AnswerTwice) && c.as_node && (c.delay_ms as u64) + slack < 2400);
             let last_waiter = c.waiters.iter().max().copied().unwrap_or(0) as u64;
             let end = t_up.max(last_waiter) + 700_000;
             // liveness sampling
@@ -288,7 +291,7 @@ impl Stage for Boot {
         })
     }
     fn rule(&self) -> String {
-        "builder configurations: 0..40 contacts (or a crowd of 10..17 prompt answering nodes plus 0..3 silent ones, which yields >= 10 good nodes and hence a single bootstrap), each given as node, as router (literal ip:port) or both, each answering (and naming the silent ones and the other answering ones) / silent / unsendable (an address of the other family: send_to fails) / answering with a KRPC error / answering garbage after 0..9 s (answers later than the 2.5 s initial-round timeout count as unresponsive for the deadline); read-only on/off; outage patterns (none, 1..3 outages of 1 ms..30 min with up-times from 1 s, flapping 4..12 times with 1..2 s up-times, one outage of 10 min..2 h) during which no contact answers; 0..12 bootstrapped() callers at times 0..50 min, optionally 1..3 more callers that drop their future after 1 ms..60 s while the others keep waiting; answering contacts that send every reply twice; optionally (serving nodes) a stranger pinging every 0.3..1.5 s with replies that take 10..70 % of the period to send, and get_state() polled every 97 ms (commands and state changes pile up behind a busy event loop). Oracle: API liveness sampled ~400 times over the run; no contacts => waiters true at once and no traffic; contacts => no waiter resolves before the first response reaches the node; plain nodes with an answering contact => every waiter true by max(call, network-up) + 660 s. Non-trivial: an outage > 60 s with >= 2 distinct waiter times, or a router/node overlap, or > 9 contacts".into()
+        "builder configurations: 0..40 contacts (or a crowd of 10..17 prompt answering nodes plus 0..3 silent ones, which yields >= 10 good nodes and hence a single bootstrap), each given as node, as router (literal ip:port) or both, each answering (and naming the silent ones and the other answering ones) / silent / unsendable (an address of the other family: send_to fails) / answering with a KRPC error / answering garbage after 0..9 s (answers later than the 2.5 s initial-round timeout, less three send blocks of a busy event loop, count as unresponsive for the deadline); read-only on/off; outage patterns (none, 1..3 outages of 1 ms..30 min with up-times from 1 s, flapping 4..12 times with 1..2 s up-times, one outage of 10 min..2 h) during which no contact answers; 0..12 bootstrapped() callers at times 0..50 min, optionally 1..3 more callers that drop their future after 1 ms..60 s while the others keep waiting; answering contacts that send every reply twice; optionally (serving nodes) a stranger pinging every 0.3..1.5 s with replies that take 10..70 % of the period to send, and get_state() polled every 97 ms (commands and state changes pile up behind a busy event loop). Oracle: API liveness sampled ~400 times over the run; no contacts => waiters true at once and no traffic; contacts => no waiter resolves before the first response reaches the node; plain nodes with an answering contact => every waiter true by max(call, network-up) + 660 s. Non-trivial: an outage > 60 s with >= 2 distinct waiter times, or a router/node overlap, or > 9 contacts".into()
     }
     fn sample(&self, c: &Case) -> serde_json::Value {
         serde_json::json!({"contacts": c.contacts.iter().take(6).map(|x| format!("{:?}/{}{}", x.kind, if x.as_node {"N"} else {""}, if x.as_router {"R"} else {""})).collect::<Vec<_>>(), "n_contacts": c.contacts.len(), "outages": c.outages, "waiters": c.waiters})
